@@ -265,6 +265,7 @@ def run(facts, tier, ctx):
                             % (e.id, lo, hi)), dict(sample, verdict="FAIL"))
     ra.require_floor(want, "stream encoders")
     out.append(ra)
+    out.append(rule_accum(facts))
     # the frame-size bounds are taken from count_bits() in the single-thread loop (and from the precomputed bytes in the
     # workers): they are the sizes of the emitted frames only if write == count_bits for every component (C08)
     from . import c08
@@ -314,3 +315,115 @@ def _from_count_bits_div8(body, rv, depth=0):
             if kk in rv and isinstance(rv[kk], dict):
                 walk_op(rv[kk], 0)
     return seen["cb"] and seen["div8"]
+
+
+def rule_accum(facts):
+    """ACCUM/bounds: the four bounds are running minima / maxima over the frames: each minimum field becomes
+    min(value of this frame, old value), each maximum field max(..), the frame value is the frame's block size resp. its
+    count_bits()/8, and a fresh STREAMINFO starts the minima at the largest value of the field type and the maxima at 0
+    (the identities of min / max), so the bounds after n frames are the extremes of exactly those n frames."""
+    from . import lib_effect as E
+    ac = RuleResult("ACCUM/bounds", "STREAMINFO bounds are running min / max over the added frames, started from the identities")
+    ufi = facts.body("component::datatype::StreamInfo::update_frame_info")
+    ectx = E.Ctx(facts)
+    ectx.track_fields = True
+    ectx.noinline = [r"count_bits$", r"Frame::block_size$"]
+    it = E.Interp(ectx, ufi)
+    try:
+        it.run()
+    except E.Undecided as e:
+        ac.fail(Finding("ACCUM/bounds", ufi.id, "undecided", 0, ufi.loc(), "cannot summarise %s: %s" % (ufi.id, e)))
+        return ac
+    WANT = {"min_block_size": ("min", r"Frame::block_size$"), "max_block_size": ("max", r"Frame::block_size$"),
+            "min_frame_size": ("min", r"BitRepr>::count_bits$"), "max_frame_size": ("max", r"BitRepr>::count_bits$")}
+    for f, (op, src) in WANT.items():
+        v = it.fields.get(("arg1", ("." + f,)))
+        where = ufi.loc()
+        if v is None:
+            ac.fail(Finding("ACCUM/bounds", ufi.id, "not-updated:" + f, 0, where, "update_frame_info leaves %s unchanged" % f))
+            continue
+        v = E.strip_casts(v)
+        old = ("p", 1, ("." + f,))
+        is_a1 = lambda y: isinstance(y, tuple) and y and y[0] == "p" and y[1] == 1
+        is_a2 = lambda y: isinstance(y, tuple) and y and y[0] == "p" and y[1] == 2
+        news = []
+
+        def leaves(x):
+            # maximal sub-expressions that depend on the frame and not on self
+            if not isinstance(x, tuple) or not x:
+                return
+            if isinstance(x[0], str) and E.mentions(x, is_a2) and not E.mentions(x, is_a1):
+                if x not in news:
+                    news.append(x)
+                return
+            for y in (x if isinstance(x[0], tuple) else x[1:]):
+                if isinstance(y, tuple):
+                    leaves(y)
+        leaves(v)
+        distinct = {E.canon(n) for n in news}
+        good = False
+        why = "the new value is %s" % E.show(v)[:120]
+        if len(distinct) == 1:
+            n = E.strip_casts(news[0])
+
+            def has_src(x):
+                return E.mentions(x, lambda y: isinstance(y, tuple) and y and y[0] == "call" and re.search(src, y[1])
+                                  and y[2] and E.strip_casts(y[2][0]) == ("p", 2, ()))
+            if src.endswith("count_bits$"):
+                srcok = isinstance(n, tuple) and n[0] == "bin" and ((n[1] == "Div" and E.is_c(n[3], 8)) or (n[1] == "Shr" and E.is_c(n[3], 3))) \
+                    and E.strip_casts(n[2])[0] == "call" and has_src(n[2])
+                why = "the frame value is %s, not count_bits(frame) / 8" % E.show(n)[:100]
+            else:
+                srcok = n[0] == "call" and has_src(n)
+                why = "the frame value is %s, not the frame's block size" % E.show(n)[:100]
+            if srcok:
+                # the update, as a function of (frame value, old value), is min / max: evaluate the summary on a grid
+                fn = min if op == "min" else max
+                bad = None
+                for nv in (0, 1, 2, 7, 8, 9, 300):
+                    for ov in (0, 1, 2, 7, 8, 9, 300):
+                        env = {x: nv for x in news}
+                        env[old] = ov
+                        got = E.evalc(v, env)
+                        if got != fn(nv, ov):
+                            bad = (nv, ov, got)
+                            break
+                    if bad:
+                        break
+                good = bad is None
+                if bad:
+                    why = "for a frame value of %d and an old value of %d the field becomes %s" % bad
+        if good:
+            ac.ok({"field": f, "update": E.show(v)[:140], "verdict": "ok"})
+        else:
+            ac.fail(Finding("ACCUM/bounds", ufi.id, "not-running-%s:%s" % (op, f), 0, where,
+                            "%s is not updated as %s(this frame, old value): %s. After the last frame the field is not the %s "
+                            "over the emitted frames" % (f, op, why, "smallest" if op == "min" else "largest")))
+    # identities in the constructor
+    ctor = facts.body("component::datatype::StreamInfo::new")
+    it2 = E.Interp(E.Ctx(facts), ctor)
+    try:
+        it2.run()
+        rv = it2.retval
+        while isinstance(rv, tuple) and rv and rv[0] in ("okval", "okif"):
+            rv = rv[1]
+        if isinstance(rv, tuple) and rv[0] == "agg" and rv[2] == "Ok":
+            rv = rv[3][0]
+        adt = facts.adts.get("component::datatype::StreamInfo")
+        names = [x["name"] for x in adt["variants"][0]["fields"]]
+        tys = {x["name"]: x["ty"] for x in adt["variants"][0]["fields"]}
+        vals = dict(zip(names, rv[3])) if isinstance(rv, tuple) and rv[0] == "agg" and len(rv[3]) == len(names) else {}
+        for f, (op, _src) in WANT.items():
+            got = E.evalc(vals.get(f)) if f in vals else None
+            w = E.INT_BITS.get(tys.get(f))
+            want = (1 << w) - 1 if (op == "min" and w) else 0
+            if got == want:
+                ac.ok({"field": f, "initial": got, "verdict": "identity of " + op})
+            else:
+                ac.fail(Finding("ACCUM/bounds", ctor.id, "initial:" + f, 0, ctor.loc(),
+                                "a fresh STREAMINFO starts %s at %s; the running %s needs %s, otherwise the field never reaches "
+                                "the value of the %s frame" % (f, got, op, want, "smallest" if op == "min" else "largest")))
+    except E.Undecided as e:
+        ac.fail(Finding("ACCUM/bounds", ctor.id, "undecided", 0, ctor.loc(), "cannot summarise %s: %s" % (ctor.id, e)))
+    ac.require_floor(8, "bound accumulation obligations")
+    return ac
